@@ -44,6 +44,10 @@ fn rand_pi(rng: &mut Rng, template: &Value, dynamic: Option<&Value>) -> Value {
     v
 }
 
+fn has_headers_early(pi: &PublicInput) -> bool {
+    !pi.continuous_page_headers.is_empty()
+}
+
 pub fn run(args: &Args) -> Report {
     let seed = args.u64("seed", 1);
     let thorough = args.thorough();
@@ -102,6 +106,46 @@ pub fn run(args: &Args) -> Report {
             }
         } else {
             rep.inc("digest_equals_model");
+        }
+        // the same object edited in place and hashed again (same buffers, same lengths): each digest
+        // must follow the contents, not the object's identity or what was hashed before
+        {
+            let mut pim: PublicInput = serde_json::from_str(&serde_json::to_string(&pi0).unwrap()).unwrap();
+            let n = pim.main_page.len();
+            let mut prev = pim.get_hash(nf);
+            for step in 0..6usize {
+                let what = match step {
+                    0 | 1 | 2 if n > 0 => {
+                        let k = [0, n / 2, n - 1][step];
+                        pim.main_page.0[k].value += Felt::ONE;
+                        format!("main_page[{k}].value += 1")
+                    }
+                    3 if n > 0 => {
+                        pim.main_page.0[n - 1].address += Felt::ONE;
+                        "last main-page address += 1".to_string()
+                    }
+                    4 => {
+                        pim.log_n_steps += Felt::ONE;
+                        "log_n_steps += 1".to_string()
+                    }
+                    5 => {
+                        pim.padding_value += Felt::ONE;
+                        "padding_value += 1".to_string()
+                    }
+                    _ => continue,
+                };
+                let h = pim.get_hash(nf);
+                rep.inc("in_place_edits_rehashed");
+                rep.case(&format!("{name}|in place #{step}"), true);
+                let fresh: PublicInput = serde_json::from_str(&serde_json::to_string(&pim).unwrap()).unwrap();
+                let hf = fresh.get_hash(nf);
+                if h == prev {
+                    rep.violation("C13|collision|in-place edit", &format!("digest unchanged after editing the same object in place ({what})"), json!({"seed": name, "edit": what}));
+                } else if h != hf || (!has_headers_early(&pim) && h != pi_hash_model(&pim, nf, stone6)) {
+                    rep.violation("C13|history-dependent", &format!("digest of an object edited in place ({what}) differs from the digest of an equal fresh object / the model"), json!({"seed": name, "edit": what}));
+                }
+                prev = h;
+            }
         }
         let mut try_variant = |rep: &mut Report, v: Value, label: String, class: String, in_statement: bool, nfv: Felt| {
             let Ok(pi) = serde_json::from_value::<PublicInput>(v.clone()) else { return };
@@ -167,6 +211,28 @@ pub fn run(args: &Args) -> Report {
         }
         // friendly-layer count
         try_variant(rep, v0.clone(), "n_verifier_friendly_commitment_layers + 1".into(), "n_verifier_friendly_commitment_layers".into(), stone6, nf + Felt::ONE);
+        // the count at every magnitude (a narrowing conversion would make large counts collide with
+        // small ones); all of these go into the same collision set, and each is compared with the model
+        {
+            let two = |e: u32| vcommon::pow_u128(Felt::TWO, e as u128);
+            let mut counts: Vec<(String, Felt)> = vec![("0".into(), Felt::ZERO), ("1".into(), Felt::ONE), ("p-1".into(), Felt::ZERO - Felt::ONE)];
+            for e in [8u32, 16, 32, 64, 128, 250] {
+                counts.push((format!("2^{e}"), two(e)));
+                counts.push((format!("orig + 2^{e}"), nf + two(e)));
+            }
+            for (l, c) in counts {
+                if c == nf {
+                    continue;
+                }
+                try_variant(rep, v0.clone(), format!("n_verifier_friendly_commitment_layers = {l}"), "n_verifier_friendly_commitment_layers".into(), stone6, c);
+                if stone6 && !has_headers {
+                    rep.inc("friendly_count_magnitudes_vs_model");
+                    if catch(|| pi0.get_hash(c)).ok() != Some(pi_hash_model(&pi0, c, stone6)) {
+                        rep.violation("C13|differs-from-model", &format!("get_hash with friendly-layer count {l} differs from the digest model"), json!({"seed": name, "n_verifier_friendly_commitment_layers": l}));
+                    }
+                }
+            }
+        }
         // main page: insertion, deletion, adjacent transposition at every position
         let n = pi0.main_page.len();
         let cap = if thorough { usize::MAX } else { 40 };
